@@ -85,6 +85,14 @@ def leaf_kinds():
         ("empty", "float32", [0, 2], False, False), ("f2", "float16", [2], False, False), ("u1", "uint8", [4], False, False),
     ]:  # fmt: skip
         ks["tensor-" + name] = I.map(lambda sd, dt=dt, shape=shape, grad=grad, param=param: {"t": "tensor", "dtype": dt, "shape": shape, "seed": sd, "grad": grad, "param": param})
+    for name, shape, grad, param, view in [
+        ("rows-grad", [2, 3], True, False, "rows"), ("index-grad", [3], True, False, "index"), ("rows-param", [2, 2], True, True, "rows"),
+        ("transpose-grad", [2, 3], True, False, "transpose"), ("rows-nograd", [4], False, False, "rows"), ("0d-index-grad", [], True, False, "index"),
+    ]:  # fmt: skip
+        ks["tensor-view-" + name] = I.map(lambda sd, shape=shape, grad=grad, param=param, view=view: {"t": "tensor", "dtype": "float32", "shape": shape, "seed": sd, "grad": grad, "param": param, "view": view})
+    for cls in ("NodeA", "NodeB"):
+        ks["obj-other-module-" + cls] = I.map(lambda sd, cls=cls: {"t": "obj", "cls": cls, "mod": 2, "attrs": [["a", {"t": "int", "v": sd % 7}]]})
+        ks["obj-first-module-" + cls] = I.map(lambda sd, cls=cls: {"t": "obj", "cls": cls, "attrs": [["a", {"t": "int", "v": sd % 7}]]})
     for kind in ("linear", "sequential", "modulelist"):
         ks["module-" + kind] = I.map(lambda sd, kind=kind: {"t": "module", "kind": kind, "seed": sd})
     return ks
@@ -211,6 +219,6 @@ def search(ctx):
             pass  # every worker still runs every kind (different seeds): cheap and deepens coverage
         core.run_given(ctx, "matrix-" + name, matrix_cases(strat), lambda c: check(ctx, c), ctx.n(2, 12), shrink=True)
     ctx.extra["matrix_kinds_enumerated"] = len(kinds)
-    core.run_given(ctx, "graphs", cases(3), lambda c: check(ctx, c), ctx.n(70, 800))
+    core.run_given(ctx, "graphs", cases(3), lambda c: check(ctx, c), ctx.n(55, 800))
     if ctx.thorough:
         core.run_given(ctx, "deep-graphs", cases(4), lambda c: check(ctx, c), ctx.n(0, 200))
